@@ -1,0 +1,10 @@
+//go:build verif
+
+package verifhook
+
+import (
+	"github.com/open2b/scriggo/internal/compiler"
+)
+
+// CheckShow is the static check of a show statement: checkShow(t, ctx).
+var CheckShow = compiler.VerifCheckShow
